@@ -1,6 +1,6 @@
 (* C15 — closing the hub ends every stream and rejects later operations. Statements only; proofs in
    Proofs/HubProofs3.v over the hub transition system (every schedule, both transports). *)
-From Mercure Require Import Base Hub HubProofs3.
+From Mercure Require Import Base Hub HubProofs3 HubProofs7 HubProofs10.
 
 (* from the moment Close has run its critical section, and for ever after, every indexed subscriber's
    channel is closed: its handler observes the end of the stream after what was buffered *)
@@ -43,3 +43,24 @@ Example C15_nonvacuous :
               AClose; AClose; AClose; AClose] in
   h_close (w_st w) = 3%nat /\ map hs_closed (h_subs (w_st w)) = [true; true] /\ h_index (w_st w) = [0; 1]%nat.
 Proof. vm_compute. repeat split. Qed.
+
+(* "the history file can immediately be reopened and contains every acknowledged update": with no retention limit,
+   in every reachable state - in particular once Close has returned - and with crashes anywhere, the file holds the
+   committed history in commit order, hence every acknowledged update; and reopening after Close finds the same file *)
+Theorem C15_file_holds_every_acknowledged_update :
+  forall mt cap tracking reqs pubs sched,
+  let st := w_st (wrun mt cap tracking (winit true 0 reqs pubs) sched) in
+  map snd (h_db st) = h_committed st /\ Forall (fun u => In u (map snd (h_db st))) (h_acked st).
+Proof. exact file_holds_acknowledged. Qed.
+Print Assumptions C15_file_holds_every_acknowledged_update.
+
+Theorem C15_reopen_after_close :
+  forall st, h_persistent st = true -> h_close st = 3%nat -> h_db (crash st) = h_db st.
+Proof. exact reopen_after_close. Qed.
+Print Assumptions C15_reopen_after_close.
+
+Example C15_file_nonvacuous :
+  let w := wrun (fun _ _ => true) 2 false (winit true 0 [NoReq] [[1; 2]; [3]])
+             [APubCheck 0; APublish 0 true; APubCheck 1; APublish 1 true; AClose; AClose; AClose; APubCheck 0; ACrash] in
+  map snd (h_db (w_st w)) = [1; 3] /\ h_acked (w_st w) = [1; 3] /\ h_close (w_st w) = 0%nat.
+Proof. vm_compute. repeat split; reflexivity. Qed.
